@@ -168,6 +168,8 @@ package logqlmetric
 // and: left samples whose key is on the right
 //@ func buildMergeSamplesOp$1
 //@   assume_pure grouper
+//@   capture ss = call(samplesSet, 0)
+//@   ensures[key-set-of-the-right-side] len(left) != 0 && len(right) != 0 ==> ss_called && same(ss_a0, right) && same(rightSamples, ss_r0)
 //@   capture k = call(grouper(s.Set,groupLabels...).Key, 0)
 //@   loop 0 modifies result[*]
 //@   ensures[empty-side] (len(left) == 0 || len(right) == 0) ==> len(result) == 0
@@ -179,6 +181,8 @@ package logqlmetric
 // unless: left samples whose key is not on the right
 //@ func buildMergeSamplesOp$3
 //@   assume_pure grouper
+//@   capture ss = call(samplesSet, 0)
+//@   ensures[key-set-of-the-right-side] len(left) != 0 && len(right) != 0 ==> ss_called && same(ss_a0, right) && same(rightSamples, ss_r0)
 //@   capture k = call(grouper(s.Set,groupLabels...).Key, 0)
 //@   loop 0 modifies result[*]
 //@   loop 0 invariant rangeindex+1 <= len(left)
@@ -189,6 +193,8 @@ package logqlmetric
 // or: all left samples, then right samples whose key is not on the left
 //@ func buildMergeSamplesOp$2
 //@   assume_pure grouper
+//@   capture ss = call(samplesSet, 0)
+//@   ensures[key-set-of-the-left-side] len(left) != 0 && len(right) != 0 ==> ss_called && same(ss_a0, left) && same(leftSamples, ss_r0)
 //@   capture k = call(grouper(s.Set,groupLabels...).Key, 0)
 //@   loop 0 modifies result[*]
 //@   ensures[left-empty] len(left) == 0 ==> same(result, right)
